@@ -124,7 +124,50 @@ func finishFull(w *World) {
 				return
 			}
 		}
+		w.inFixpoint = false
+		// release phase: free one slot per JobConfig under the seeded (not the fair)
+		// scheduler, so that wake-up races between the listeners of one event are explored,
+		// then drain fairly and assert again.
+		w.saturateRelease()
+		old := s.Mode
+		s.Mode = "fifo"
+		s.RunUntil(s.Now().Add(90 * time.Second))
+		s.Mode = old
+		if s.stopped {
+			return
+		}
+		if !s.Drain(horizon, 12*time.Hour, 600000) {
+			if len(s.Viol) == 0 {
+				s.Armed = nil
+				s.Violate(w.Plan.Property+"/no-quiescence", "system did not reach a fixpoint in the release phase")
+			}
+			return
+		}
+		if s.stopped {
+			return
+		}
+		w.inFixpoint = true
+		for _, f := range w.atFixpoint {
+			f()
+			if s.stopped {
+				return
+			}
+		}
 	}
+}
+
+// saturateRelease deletes one running saturation Job per JobConfig.
+func (w *World) saturateRelease() {
+	done := map[string]bool{}
+	for _, o := range w.API.ListRaw(ResJobs) {
+		j := o.(*execution.Job)
+		uid := j.Labels[labelJobConfigUID]
+		if len(j.Name) > 4 && j.Name[:4] == "sat-" && isActive(j) && j.DeletionTimestamp == nil && !done[uid] {
+			done[uid] = true
+			w.doUserOp(&UserOp{Kind: "deleteJob", NS: j.Namespace, Name: j.Name})
+		}
+	}
+	w.Sim.Stats["probe.saturation_release"]++
 }
 
 // saturate creates maxConcurrency+1 long-running Enqueue Jobs on every
@@ -366,6 +409,7 @@ func genFull(seed int64, property string) *Plan {
 		weights = map[string]int{"ok": 10, "slow": 6, "fail": 3, "hang": 2}
 		p.Saturate = r.Intn(3) > 0
 	case "C07":
+		p.Saturate = r.Intn(2) == 0
 		nAdhoc = 2 + r.Intn(4)
 		nIndep = 2 + r.Intn(4)
 		faulty = r.Intn(4) == 0
@@ -454,6 +498,16 @@ func genFull(seed int64, property string) *Plan {
 				jp.Disabled = r.Intn(2) == 0
 			}
 		}
+		if property == "C02" && r.Intn(3) == 0 {
+			// templates copied from another JobConfig's Job may carry the reserved keys
+			jp.TemplateLabels = map[string]string{"team": "x"}
+			if r.Intn(2) == 0 {
+				jp.TemplateLabels[labelJobConfigUID] = "uid-of-some-other-jobconfig"
+			}
+			if r.Intn(2) == 0 {
+				jp.TemplateAnnotations = map[string]string{annScheduleTime: "1234567890", "note": "copied"}
+			}
+		}
 		p.JobConfigs = append(p.JobConfigs, jp)
 		jcs = append(jcs, name)
 	}
@@ -530,6 +584,16 @@ func genFull(seed int64, property string) *Plan {
 		jc2 := jc
 		jc2.LastScheduled, jc2.LastUpdated = nil, nil
 		p.Ops = append(p.Ops, UserOp{AtMs: at + int64(500+r.Intn(8000)), Kind: "createJobConfig", NS: jc.NS, Name: jc.Name, JC: &jc2})
+	}
+	if property == "C15" && r.Intn(3) == 0 {
+		// a queued Job that lives and dies entirely while the JobConfig cache is held
+		jc := jcs[r.Intn(len(jcs))]
+		at := int64(3000 + r.Intn(int(durMs/2)))
+		life := int64(1500 + r.Intn(5000))
+		jp := JobPlan{NS: "default", Name: "flash-" + jc, ConfigName: jc, StartAfter: i64(600000)}
+		p.Ops = append(p.Ops, UserOp{AtMs: at, Kind: "createJob", NS: "default", Name: jp.Name, Job: &jp})
+		p.Ops = append(p.Ops, UserOp{AtMs: at + life, Kind: "deleteJob", NS: "default", Name: jp.Name})
+		p.Lags = append(p.Lags, LagPlan{AtMs: at - 500, DurMs: life + 500 + int64(r.Intn(4000)), Res: "jobconfigs"})
 	}
 	if property == "C09" && len(jobNames) > 0 && r.Intn(3) == 0 {
 		// delete a Job and re-create it under the same name while the old incarnation's
